@@ -721,7 +721,37 @@ def judge(case, vals, obs, plan, wrap, ref, ref_exact):
 
 
 # ------------------------------------------------------------------ run
+def absurd_table_probe(ctx):
+    """'No evaluation ever yields NaN, an infinity ...' also when the unit multiples themselves are not finite: a user's
+    currency table may hold rates float() reads as inf or as a subnormal (regression for /repo 03bfdbb)."""
+    import subprocess, json as _json
+    rep = ctx["report"]
+    for k, table in enumerate(["usd,usdollar,1.0\neur,euro,1e999\ngbp,britishpound,0.8\n", "usd,usdollar,1.0\neur,euro,0.9\nzzz,zed,1e-320\n",
+                               "usd,usdollar,1e999\neur,euro,1e999\n", "usd,usdollar,1.0\neur,euro,0.9\nzzz,zed,1.7e308\nyyy,why,5e-324\n"]):
+        home = os.path.join(ctx["rundir"], "absurd%d" % k)
+        os.makedirs(os.path.join(home, ".config", "ka"))
+        open(os.path.join(home, ".config", "ka", "currency"), "w").write(table)
+        texts = ["5 eur", "0 eur", "1 usd to gbp", "5 eur + 1 eur", "{5 eur}", "5 zzz", "0 zzz", "1 zzz to yyy", "0 yyy", "sqrt(4 eur * 1 eur)", "abs(0 zzz)", "1 + 1"]
+        code = ("import io, json, sys\nfrom ka.interpret import execute\nres = []\n"
+                "for t in json.loads(sys.argv[1]):\n    o, e = io.StringIO(), io.StringIO()\n"
+                "    try:\n        s = execute(t, out=o, errout=e)\n    except BaseException as x:\n        s = 'escaped ' + type(x).__name__\n"
+                "    res.append([t, s, o.getvalue(), e.getvalue()])\nprint(json.dumps(res))\n")
+        env = {kk: v for kk, v in os.environ.items() if not kk.startswith(("XDG_", "PYTHON"))}
+        env.update(HOME=home, PYTHONPATH=C.SRC, PYTHONHASHSEED="0", PYTHONDONTWRITEBYTECODE="1")
+        try:
+            p = subprocess.run(["/venv/bin/python", "-c", code, _json.dumps(texts)], env=env, stdout=subprocess.PIPE, stderr=subprocess.PIPE, timeout=120)
+            res = _json.loads(p.stdout.decode() or "[]")
+        except Exception as x:
+            res = []
+        for t, st, out, err in res:
+            if isinstance(st, str) or bad_text(out) or (st == 0 and err.strip()) or (st == 1 and not err.strip()):
+                rep.violation(dict(kind="non-finite-result", via="currency table with non-finite multiples"),
+                              "C16: with the currency table %r, %s gives status %r, output %r" % (table, t, st, (out or err).strip()[:80]),
+                              dict(text=t, currency_table=table, impl=[st, out[:200], err[:200]]))
+
+
 def run(ctx):
+    absurd_table_probe(ctx)
     import sys
     old = sys.get_int_max_str_digits()
     sys.set_int_max_str_digits(0)       # exact powers of 300-digit operands are longer than CPython's default limit
